@@ -46,11 +46,12 @@ type vNet[U, D any] struct {
 	upClosed bool
 	closes   int
 	failSend bool // the carrier breaks: every later Send fails
+	strip    bool // a proxy on the way drops the grpctunnel-negotiate header in both directions
 }
 
 type vNetKey struct{}
 
-func vNewNet[U, D any](cctx context.Context, capacity int) *vNet[U, D] {
+func vNewNet[U, D any](cctx context.Context, capacity int, strip bool) *vNet[U, D] {
 	if capacity == 0 {
 		capacity = 64
 	}
@@ -59,8 +60,13 @@ func vNewNet[U, D any](cctx context.Context, capacity int) *vNet[U, D] {
 	// incoming metadata (plus whatever server interceptors put there: vNetKey stands for that)
 	sctx := context.WithValue(context.Background(), vNetKey{}, "interceptor-value")
 	if md, ok := metadata.FromOutgoingContext(cctx); ok {
-		sctx = metadata.NewIncomingContext(sctx, md.Copy())
+		md = md.Copy()
+		if strip {
+			delete(md, grpctunnelNegotiateKey)
+		}
+		sctx = metadata.NewIncomingContext(sctx, md)
 	}
+	n.strip = strip
 	n.sctx, n.scancel = context.WithCancel(sctx)
 	return n
 }
@@ -145,6 +151,10 @@ func (e *vNetSrv[U, D]) SetHeader(metadata.MD) error { return nil }
 func (e *vNetSrv[U, D]) SendHeader(md metadata.MD) error {
 	if !e.n.hdrSent {
 		e.n.hdrSent = true
+		if e.n.strip {
+			md = md.Copy()
+			delete(md, grpctunnelNegotiateKey)
+		}
 		e.n.hdr = md
 		close(e.n.hdrReady)
 	}
@@ -193,10 +203,11 @@ type vE2EStub struct {
 	// frames the carrier buffers per direction (0: 64, i.e. never full in these scenarios); a full
 	// carrier blocks the sender, as a real transport with its flow control does
 	capacity int
+	strip    bool
 }
 
 func (s *vE2EStub) OpenTunnel(ctx context.Context, opts ...grpc.CallOption) (grpc.BidiStreamingClient[tunnelpb.ClientToServer, tunnelpb.ServerToClient], error) {
-	n := vNewNet[tunnelpb.ClientToServer, tunnelpb.ServerToClient](ctx, s.capacity)
+	n := vNewNet[tunnelpb.ClientToServer, tunnelpb.ServerToClient](ctx, s.capacity, s.strip)
 	s.fwd = n
 	verifGo("network-server", func() {
 		s.herr = s.svc.OpenTunnel(&vNetSrv[tunnelpb.ClientToServer, tunnelpb.ServerToClient]{n})
@@ -216,7 +227,7 @@ func (s *vE2EStub) OpenTunnel(ctx context.Context, opts ...grpc.CallOption) (grp
 }
 
 func (s *vE2EStub) OpenReverseTunnel(ctx context.Context, opts ...grpc.CallOption) (grpc.BidiStreamingClient[tunnelpb.ServerToClient, tunnelpb.ClientToServer], error) {
-	n := vNewNet[tunnelpb.ServerToClient, tunnelpb.ClientToServer](ctx, s.capacity)
+	n := vNewNet[tunnelpb.ServerToClient, tunnelpb.ClientToServer](ctx, s.capacity, s.strip)
 	s.rev = n
 	verifGo("network-server", func() {
 		s.herr = s.svc.OpenReverseTunnel(&vNetSrv[tunnelpb.ServerToClient, tunnelpb.ClientToServer]{n})
@@ -513,6 +524,9 @@ func verifH_E2E() {
 	reverse := inG(1, 2, 3, 4) && verifBool("reverseTunnel")
 	cliNoFC := (inG(1) || (inG(2) && verifParam("ilv") != 0)) && verifBool("rpcClientEndDisablesFlowControl")
 	srvNoFC := inG(1) && verifBool("rpcServerEndDisablesFlowControl")
+	// the negotiate header does not get through (either way): each end then faces a peer that does not
+	// advertise negotiation, i.e. what a revision-zero implementation looks like from outside
+	stripped := inG(1) && verifBool("negotiateHeaderStripped")
 	shape := 0 // 0 unary (Invoke), 1 client-streaming, 2 server-streaming, 3 bidi
 	if inG(0, 1) || (inG(2) && verifParam("ilv") != 0) {
 		shape = verifChoice("shape", 4)
@@ -612,7 +626,7 @@ func verifH_E2E() {
 	// ---- the tunnel
 	handlers := vE2EHandlers(app)
 	h := NewTunnelServiceHandler(TunnelServiceHandlerOptions{DisableFlowControl: (!reverse && srvNoFC) || (reverse && cliNoFC)})
-	stub := &vE2EStub{svc: h.Service()}
+	stub := &vE2EStub{svc: h.Service(), strip: stripped}
 	openCtx := metadata.NewOutgoingContext(context.Background(), metadata.MD{"opener": {"me"}})
 	openCtx, openCancel := context.WithCancel(openCtx)
 	defer openCancel()
@@ -656,7 +670,7 @@ func verifH_E2E() {
 	}
 	verifDrain()
 	g0 := verifLiveGoroutines()
-	rev1 := !cliNoFC && !srvNoFC
+	rev1 := !cliNoFC && !srvNoFC && !stripped
 	c := tch.(*tunnelChannel)
 	verifAssert((c.useRevision == tunnelpb.ProtocolRevision_REVISION_ONE) == rev1, "C11.e2e-flow-control-exactly-when-neither-end-disabled-it")
 
@@ -919,7 +933,7 @@ func verifH_E2E() {
 	verifAssert(verifLiveGoroutines() == 0, "C14.e2e-no-goroutine-left-after-the-tunnel-ended")
 
 	// ---- C13 / C11 / C08: the wire
-	negotiated := true // both ends are this library: both advertise
+	negotiated := !stripped // both ends are this library: both advertise, unless the header is lost on the way
 	if !reverse {
 		vE2EWire(stub.fwd.upLog, stub.fwd.downLog, negotiated, rev1, event == 1 || event == 2)
 	} else {
@@ -1124,4 +1138,236 @@ func verifH_E2EHol() {
 	} else {
 		vE2EWire(stub.rev.downLog, stub.rev.upLog, true, true, false)
 	}
+}
+
+// S-E2E-MULTI (C12 C17 C04 C14): several reverse tunnels, all ends real, open to one handler with an
+// affinity-key function: the registry views (AllReverseTunnels, AsChannel, KeyAsChannel(k)) are
+// exactly the open tunnels (with key k), n consecutive RPCs over a stable set of n tunnels use each
+// once, every RPC reaches the handler of the tunnel that WithTunnelChannel names and that handler's
+// context carries that tunnel's opening metadata, one open and one close callback per tunnel in that
+// order, and when a tunnel ends - by Stop on its own end or Close on the handler's end - it leaves
+// the views at once.
+func verifH_E2EMulti() {
+	nt := 2 + verifChoice("thirdTunnel", 2)
+	keys := []string{"a", "a", "a"}
+	for i := 1; i < nt; i++ {
+		if verifBool("otherKey") {
+			keys[i] = "b"
+		}
+	}
+	var events []string // callbacks, in order
+	nameOf := func(tc TunnelChannel) string {
+		md, _ := metadata.FromIncomingContext(tc.Context())
+		if len(md["name"]) == 1 {
+			return md["name"][0]
+		}
+		return "?"
+	}
+	h := NewTunnelServiceHandler(TunnelServiceHandlerOptions{
+		AffinityKey: func(tc TunnelChannel) any {
+			md, _ := metadata.FromIncomingContext(tc.Context())
+			if len(md["key"]) == 1 {
+				return md["key"][0]
+			}
+			return nil
+		},
+		OnReverseTunnelOpen:  func(tc TunnelChannel) { events = append(events, "open-"+nameOf(tc)) },
+		OnReverseTunnelClose: func(tc TunnelChannel) { events = append(events, "close-"+nameOf(tc)) },
+	})
+	type end struct {
+		name    string
+		rts     *ReverseTunnelServer
+		stub    *vE2EStub
+		calls   int
+		sawName string
+		done    bool
+		err     error
+	}
+	var ends []*end
+	for i := 0; i < nt; i++ {
+		e := &end{name: []string{"t0", "t1", "t2"}[i]}
+		e.stub = &vE2EStub{svc: h.Service()}
+		e.rts = NewReverseTunnelServer(e.stub)
+		hm := grpchan.HandlerMap{}
+		hm.RegisterService(&grpc.ServiceDesc{ServiceName: "a", HandlerType: (*any)(nil), Methods: []grpc.MethodDesc{{MethodName: "u",
+			Handler: func(srv any, ctx context.Context, dec func(any) error, _ grpc.UnaryServerInterceptor) (any, error) {
+				e.calls++
+				if md, ok := TunnelMetadataFromIncomingContext(ctx); ok && len(md["name"]) == 1 {
+					e.sawName = md["name"][0]
+				}
+				in := &wrapperspb.BytesValue{}
+				if err := dec(in); err != nil {
+					return nil, err
+				}
+				return &wrapperspb.BytesValue{Value: in.Value}, nil
+			}}}}, &vSvcImpl{"a"})
+		e.rts.handlers = hm
+		ends = append(ends, e)
+		ctx := metadata.NewOutgoingContext(context.Background(), metadata.MD{"name": {e.name}, "key": {keys[i]}})
+		verifGo("serve-"+e.name, func() {
+			_, e.err = e.rts.Serve(ctx)
+			e.done = true
+		})
+		verifDrain()
+	}
+	byName := func(tc TunnelChannel) *end {
+		for _, e := range ends {
+			if e.name == nameOf(tc) {
+				return e
+			}
+		}
+		return nil
+	}
+	// ---- all tunnels are up
+	all := h.AllReverseTunnels()
+	verifAssert(len(all) == nt, "C12.multi-all-reverse-tunnels-lists-every-open-tunnel")
+	if len(all) != nt {
+		return
+	}
+	for i := range all {
+		for j := 0; j < i; j++ {
+			verifAssert(all[i] != all[j], "C12.multi-no-tunnel-listed-twice")
+		}
+	}
+	call := func(ch ReverseClientConnInterface) (TunnelChannel, error) {
+		var used TunnelChannel
+		resp := &wrapperspb.BytesValue{}
+		err := ch.Invoke(context.Background(), "/a/u", &wrapperspb.BytesValue{Value: []byte{5}}, resp, WithTunnelChannel(&used))
+		return used, err
+	}
+	// n consecutive RPCs over the stable set of n tunnels: each exactly once, each to the right handler
+	used := map[string]int{}
+	for i := 0; i < nt; i++ {
+		tc, err := call(h.AsChannel())
+		verifAssert(err == nil && tc != nil, "C12.multi-rpc-through-the-pooled-channel-succeeds")
+		if tc == nil {
+			return
+		}
+		e := byName(tc)
+		verifAssert(e != nil, "C17.multi-with-tunnel-channel-names-an-open-tunnel")
+		if e != nil {
+			used[e.name]++
+			verifAssert(e.calls == used[e.name] && e.sawName == e.name, "C12+C17.multi-rpc-ran-on-the-tunnel-that-with-tunnel-channel-names-and-saw-its-opening-metadata")
+		}
+	}
+	for _, e := range ends {
+		verifAssert(used[e.name] == 1, "C12.multi-n-consecutive-rpcs-use-each-tunnel-exactly-once")
+	}
+	// per key
+	for _, k := range []string{"a", "b"} {
+		want := 0
+		for i := 0; i < nt; i++ {
+			if keys[i] == k {
+				want++
+			}
+		}
+		kc := h.KeyAsChannel(k)
+		verifAssert(kc.Ready() == (want > 0), "C12.multi-key-ready-iff-a-tunnel-with-that-key-is-open")
+		seen := map[string]int{}
+		for i := 0; i < want; i++ {
+			tc, err := call(kc)
+			verifAssert(err == nil && tc != nil, "C12.multi-rpc-through-the-keyed-channel-succeeds")
+			if tc != nil {
+				e := byName(tc)
+				verifAssert(e != nil && keys[int(e.name[1]-'0')] == k, "C12.multi-keyed-channel-routes-only-to-tunnels-with-that-key")
+				if e != nil {
+					seen[e.name]++
+					verifAssert(seen[e.name] == 1, "C12.multi-keyed-round-robin-uses-each-matching-tunnel-once")
+				}
+			}
+		}
+		if want == 0 {
+			_, err := call(kc)
+			verifAssert(status.Code(err) == codes.Unavailable, "C12.multi-no-matching-tunnel-means-unavailable")
+		}
+	}
+	verifAssert(!h.KeyAsChannel("zzz").Ready() && !h.KeyAsChannel(nil).Ready(), "C12.multi-unknown-key-not-ready")
+
+	// ---- one tunnel ends
+	victim := verifChoice("victim", nt)
+	how := verifChoice("how", 2)
+	if how == 0 {
+		ends[victim].rts.Stop()
+	} else {
+		for _, tc := range all {
+			if nameOf(tc) == ends[victim].name {
+				tc.Close()
+			}
+		}
+	}
+	verifDrain()
+	verifCover("multi-one-tunnel-gone")
+	verifAssert(ends[victim].done, "C04.multi-serve-of-the-ended-tunnel-returned")
+	verifAssert(ends[victim].err == nil, "C04.multi-serve-ends-cleanly")
+	rest := h.AllReverseTunnels()
+	verifAssert(len(rest) == nt-1, "C12+C14.multi-ended-tunnel-leaves-the-registry")
+	for _, tc := range rest {
+		verifAssert(nameOf(tc) != ends[victim].name, "C12.multi-ended-tunnel-not-listed")
+	}
+	for i := 0; i < 2*nt; i++ {
+		tc, err := call(h.AsChannel())
+		verifAssert(err == nil && tc != nil && nameOf(tc) != ends[victim].name, "C12.multi-no-rpc-routed-to-the-ended-tunnel")
+	}
+	vk := keys[victim]
+	left := 0
+	for i := 0; i < nt; i++ {
+		if i != victim && keys[i] == vk {
+			left++
+		}
+	}
+	verifAssert(h.KeyAsChannel(vk).Ready() == (left > 0), "C12.multi-key-readiness-follows-the-ended-tunnel")
+	{
+		// tunnels remain in the pool: waiting for readiness returns at once
+		var werr error
+		waited := false
+		verifGo("pool-waiter", func() { werr = h.AsChannel().WaitForReady(context.Background()); waited = true })
+		verifDrain()
+		verifAssert(waited && werr == nil, "C12.multi-wait-for-ready-immediate-while-tunnels-remain")
+	}
+	if left > 0 {
+		var werr error
+		waited := false
+		verifGo("key-waiter", func() { werr = h.KeyAsChannel(vk).WaitForReady(context.Background()); waited = true })
+		verifDrain()
+		verifAssert(waited && werr == nil, "C12.multi-wait-for-ready-immediate-while-a-matching-tunnel-remains")
+	}
+	if left == 0 {
+		ctx, cancel := context.WithCancel(context.Background())
+		var werr error
+		waited := false
+		verifGo("waiter", func() { werr = h.KeyAsChannel(vk).WaitForReady(ctx); waited = true })
+		verifDrain()
+		verifAssert(!waited, "C12.multi-wait-for-ready-blocks-once-the-last-matching-tunnel-is-gone")
+		cancel()
+		verifDrain()
+		verifAssert(waited && werr == context.Canceled, "C12.multi-wait-for-ready-honours-its-context")
+	}
+	// ---- the others end, too
+	for i, e := range ends {
+		if i != victim {
+			e.rts.Stop()
+		}
+	}
+	verifDrain()
+	verifAssert(len(h.AllReverseTunnels()) == 0 && !h.AsChannel().Ready(), "C12+C14.multi-registry-empty-at-the-end")
+	_, err := call(h.AsChannel())
+	verifAssert(status.Code(err) == codes.Unavailable, "C12.multi-no-tunnel-means-unavailable")
+	// callbacks: one open then one close per tunnel
+	for _, e := range ends {
+		no, nc, order := 0, 0, true
+		for _, ev := range events {
+			if ev == "open-"+e.name {
+				no++
+				if nc > 0 {
+					order = false
+				}
+			}
+			if ev == "close-"+e.name {
+				nc++
+			}
+		}
+		verifAssert(no == 1 && nc == 1 && order, "C12.multi-exactly-one-open-callback-then-exactly-one-close-callback")
+		verifAssert(e.done, "C04.multi-every-serve-returned")
+	}
+	verifAssert(verifLiveGoroutines() == 0, "C14.multi-no-goroutine-left")
 }
